@@ -82,7 +82,7 @@ func cmdFetchDiff(args []string) error {
 	}
 	os.MkdirAll(*out, 0o755)
 	ctx := context.Background()
-	var lines, samples []string
+	var lines, samples, touched []string
 	fetches, nonEmpty, skips, oversize := 0, 0, 0, 0
 	var mu sync.Mutex
 	var wg sync.WaitGroup
@@ -141,8 +141,27 @@ func cmdFetchDiff(args []string) error {
 				}
 				res, _ := g.Results()
 				var got []string
+				handed := map[uuid.UUID]bool{}
 				for _, dl := range res.Deliveries {
 					got = append(got, fmt.Sprintf("%d%%N", rank[dl.ID]))
+					handed[dl.ID] = true
+				}
+				// what was fetched but not handed out (skipped for the byte budget, or beyond the
+				// limit) is not an attempt: its row is exactly as before
+				if post, err := e.dumpR(ctx); err == nil {
+					for _, c := range cands {
+						x := post.del(c.ID)
+						if handed[c.ID] || x == nil {
+							continue
+						}
+						lastEq := (x.Last == nil) == (c.Last == nil) && (x.Last == nil || *x.Last == *c.Last)
+						if x.Attempts != c.Attempts || x.AttemptAt != c.AttemptAt || !lastEq || (x.Completed == nil) != (c.Completed == nil) {
+							mu.Lock()
+							touched = append(touched, fmt.Sprintf("fetch with MaxMessages %d, MaxBytes %d, strict %v over %d due deliveries handed out %d; delivery %s (%d bytes) was NOT handed out, yet its row changed: attempts %d -> %d, next attempt %+d ms, completed %v",
+								maxN, maxB, strict, len(cands), len(res.Deliveries), c.ID, d.msg(c.Msg).Size, c.Attempts, x.Attempts, (x.AttemptAt-c.AttemptAt)/1e6, x.Completed != nil))
+							mu.Unlock()
+						}
+					}
 				}
 				line := fmt.Sprintf("(%s, %d, %d, %s, [%s])", coqPend(cands, d, rank), maxN, maxB, coqBool(strict), strings.Join(got, "; "))
 				mu.Lock()
@@ -179,7 +198,7 @@ func cmdFetchDiff(args []string) error {
 		return err
 	}
 	return writeJSON(filepath.Join(*out, "fetch_diff.json"), map[string]interface{}{"fetches": fetches, "non_empty": nonEmpty,
-		"with_skipped_candidates": skips, "oversize_alone": oversize, "cases": lines, "samples": samples})
+		"with_skipped_candidates": skips, "oversize_alone": oversize, "cases": lines, "samples": samples, "touched": touched})
 }
 
 // ---------------------------------------------------------------- stream scenarios
